@@ -304,3 +304,21 @@ proof fn lemma_stmts_shape_mono(ss: Seq<Stmt>, w: int, p: spec_fn(int) -> bool, 
 {
     assert forall|i: int| 0 <= i < ss.len() implies stmt_shape(#[trigger] ss[i], w, q) by { lemma_stmt_shape_mono(ss[i], w, p, q); }
 }
+
+/// dropping the head statement of the first block keeps the shape
+proof fn lemma_fails_shape(c1: Config, c2: Config, w: int, p: spec_fn(int) -> bool)
+    requires fails(c1, c2), k_shape(c1.k, w, p)
+    ensures k_shape(c2.k, w, p)
+{
+    let (n, cm) = choose|n: nat, cm: Config| #[trigger] witn(n, cm) && reach(c1, cm, n) && drop_head(cm, c2);
+    lemma_reach_shape(c1, cm, n, w, p);
+    if c2.k != cm.k {
+        let ss = cm.k[0]->Block_0;
+        assert forall|i: int| 0 <= i < c2.k.len() implies frame_shape(#[trigger] c2.k[i], w, p) by {
+            if i == 0 {
+                assert(frame_shape(cm.k[0], w, p));
+                assert forall|j: int| 0 <= j < ss.skip(1).len() implies stmt_shape(#[trigger] ss.skip(1)[j], w, p) by { assert(ss.skip(1)[j] == ss[j + 1]); }
+            } else { assert(c2.k[i] == cm.k[i]); }
+        }
+    }
+}
